@@ -72,10 +72,8 @@ Definition c02_no_reuse_full : Prop :=
    F2, replayed on the implementation by the check): a Sample that outlives its Subscriber *)
 Theorem c02_no_reuse_refuted : ~ c02_no_reuse_full.
 Proof.
-  intros H. destruct f2_before_witness as ([obs Hrun] & Hlive & _ & [w' Ha] & Hs).
-  specialize (H cfg11 f2_prefix f2_before obs 0 w' 0 Hrun Hlive Ha).
-  destruct (w_samples f2_before) as [|x [|y t]] eqn:E; cbn in Hs; try discriminate.
-  inversion Hs as [[Ho Hoff]]. apply (H x); auto. now left.
+  intros H. destruct f2_before_witness as ([obs Hrun] & Hlive & _ & [w' Ha] & (x & Hin & Ho & Hoff)).
+  exact (H cfg11 f2_prefix f2_before obs 0 w' 0 Hrun Hlive Ha x Hin Ho Hoff).
 Qed.
 Print Assumptions c02_no_reuse_refuted.
 
